@@ -236,6 +236,9 @@ def case_krige(case):
         kwargs = dict(kw)
         if variant in EXTV:
             kwargs["ext_drift"] = ext
+        if isinstance(tp, np.ndarray):
+            # a request at positions that agree with the targets within numpy.allclose comes first
+            k(tp * (1 + 3e-6), **kwargs)
         f, v = k(tp, **kwargs)
         w, est, var = ref.solve(tp, ext)
         tol = ref.tol(float(np.abs(ref.ztilde()).max()))
